@@ -119,6 +119,8 @@ type MultisetCombinationIterator struct {
 	m     []int
 	k     int
 	j     int
+	//The smallest type i with m[i] > 0. Algorithm Q looks at the count of the smallest type to tell whether the types below j are all full or all empty so it has to be a type which can hold something.
+	lo int
 
 	//A buffer slice to return the value in as we iterate using FreqValue
 	value []int
@@ -165,6 +167,9 @@ func (iter *MultisetCombinationIterator) Next() bool {
 		iter.value = make([]int, iter.k)
 		//Q2
 		iter.state = make([]int, len(iter.m))
+		for iter.lo < len(iter.m)-1 && iter.m[iter.lo] == 0 {
+			iter.lo++
+		}
 		x := iter.k
 		for j := 0; j < len(iter.m); j++ {
 			if x > iter.m[j] {
@@ -193,10 +198,10 @@ func (iter *MultisetCombinationIterator) Next() bool {
 	//Q4
 	x := 0
 	j := iter.j
-	if j == 0 {
-		x = iter.state[0] - 1
-		j = 1
-	} else if iter.state[0] == 0 {
+	if j == iter.lo {
+		x = iter.state[j] - 1
+		j++
+	} else if iter.state[iter.lo] == 0 {
 		x = iter.state[j] - 1
 		iter.state[j] = 0
 		j++
@@ -221,7 +226,7 @@ Q5:
 	//Q6
 	iter.state[j]++
 	if x == 0 {
-		iter.state[0] = 0
+		iter.state[iter.lo] = 0
 		iter.j = j
 		return true
 	}
@@ -251,10 +256,14 @@ Q7:
 	}
 
 	iter.state[j]++
-	j--
-	iter.state[j]--
-	if iter.state[0] == 0 {
-		j = 1
+	//Take the element from the largest smaller type which can hold something. All of these types are full.
+	i := j - 1
+	for iter.m[i] == 0 {
+		i--
+	}
+	iter.state[i]--
+	if iter.state[iter.lo] != 0 {
+		j = i
 	}
 	iter.j = j
 	return true
